@@ -119,6 +119,9 @@ def run_case(case, ctx):
 
 
 def _check(m, spec, desc, ctx, f0, factor):
+    if desc['seed'][-1] % 2:
+        from gen.poke import poke
+        poke(m, ctx)
     T = spec.templates.astype(np.float64)
     wmi = spec.wmi_eff
     st = spec.spike_templates.astype(np.int64)
